@@ -9,7 +9,7 @@
    0 <= nanos < 10^9), a present public key is in canonical form ([pk_canon k = Some k]).
    [pk_canon] — crypto.UnmarshalPublicKey followed by crypto.MarshalPublicKey — is universally quantified. *)
 From Coq Require Import NArith ZArith List Bool.
-From Verif Require Import Model.Wire Proofs.WireProofs.
+From Verif Require Import Model.Wire Model.WireReuse Proofs.WireProofs Proofs.WireReuseProofs.
 Import ListNotations.
 Open Scope N_scope.
 
@@ -155,6 +155,106 @@ Proof. exact (conj parse_fuel_indep (conj skip_group_fuel_indep cursor_fuel_inde
 Print Assumptions C12_fuel_full.
 (* Stability of the cursor list (decode bs = Some l -> decode (encode l) = Some l) is NOT proved: tested only. *)
 
+(* ---- decoding into a receiver that is NOT fresh (Model/WireReuse.v).  [into_T r bs] is
+   r.UnmarshalBinary(bs) for an arbitrary receiver r: (the receiver afterwards, no error returned).
+   The value a used receiver holds after a successful decode is the value a fresh receiver would hold, and a
+   failed decode is reported as such: Header, Metadata, Data, State (block-store path) leave the receiver
+   untouched on failure; a SignedHeader whose public key does not parse returns the error with Header and
+   Signature already stored (Example signed_header_half_written_on_key_error). ---- *)
+Theorem C12_decode_independent_of_receiver_full :
+  (forall r bs, into_header r bs = match dec_header bs with Some v => (v, true) | None => (r, false) end) /\
+  (forall r bs, into_metadata r bs = match dec_metadata bs with Some v => (v, true) | None => (r, false) end) /\
+  (forall r bs, into_data r bs = match dec_data bs with Some v => (v, true) | None => (r, false) end) /\
+  (forall r bs, into_state r bs = match dec_state bs with Some v => (v, true) | None => (r, false) end) /\
+  (forall pk_canon r bs, match dec_signed_header pk_canon bs with
+                         | Some s => into_signed_header pk_canon r bs = (s, true)
+                         | None => snd (into_signed_header pk_canon r bs) = false end).
+Proof. exact decode_independent_of_receiver. Qed.
+Print Assumptions C12_decode_independent_of_receiver_full.
+
+(* SignedData: the same, under the guard that the bytes carry a Data field (field 1).  What is missing:
+   SignedData.FromProto skips Data when the field is absent (serialization.go:383), so such bytes leave the
+   receiver's OLD Data in place (second theorem: the exact result).  Every encoding of a value carries
+   the field (third theorem), so encode-then-decode is not affected; this is a dependence on the receiver
+   for hand-made bytes only and is not claimed as a violation of C12. *)
+Theorem C12_signed_data_decode_independent_of_receiver_partial : forall pk_canon r bs,
+  sd_data_present bs = true ->
+  match dec_signed_data pk_canon bs with
+  | Some s => into_signed_data pk_canon r bs = (s, true)
+  | None => snd (into_signed_data pk_canon r bs) = false
+  end.
+Proof. exact into_signed_data_fresh. Qed.
+Print Assumptions C12_signed_data_decode_independent_of_receiver_partial.
+
+Theorem C12_signed_data_absent_data_field_full : forall pk_canon r bs,
+  sd_data_present bs = false ->
+  match dec_signed_data pk_canon bs with
+  | Some s => into_signed_data pk_canon r bs = (sd_with_data s (sd_data r), true)
+  | None => snd (into_signed_data pk_canon r bs) = false
+  end.
+Proof. exact into_signed_data_absent. Qed.
+Print Assumptions C12_signed_data_absent_data_field_full.
+
+Theorem C12_signed_data_encodings_carry_data_full : forall pk_canon s,
+  wf_signed_data pk_canon s -> sd_data_present (enc_signed_data s) = true.
+Proof. exact sd_data_present_enc. Qed.
+Print Assumptions C12_signed_data_encodings_carry_data_full.
+
+(* ---- receiver-reuse histories.  [reuse_history ops r0 live steps]: the receiver starts as ANY value r0
+   ([live]: it is a copy of a value somebody still holds), the byte strings are decoded into it one after
+   the other, after every successful decode the caller copies the value out; the observation after each
+   step is (no error?, the receiver, every value copied out so far).
+   For every list of well-formed values, decoding their encodings one after the other into the same receiver:
+   every decode succeeds, the receiver holds the value that was encoded, and the values obtained before are
+   all still there, each equal to the value that was encoded ([value_obs]) — whatever the receiver held
+   before.  In the model a decoded value is a mathematical value and cannot change; that is the point: the
+   harness compares, step by step, what the values copied out of the REAL receiver look like with this. ---- *)
+Theorem C12_reuse_roundtrip_full :
+  (forall r0 live vs, Forall wf_header vs ->
+     map obs_deep (reuse_history ops_header r0 live (map enc_header vs)) = value_obs (if live then [r0] else []) vs) /\
+  (forall r0 live vs, Forall wf_metadata vs ->
+     map obs_deep (reuse_history ops_metadata r0 live (map enc_metadata vs)) = value_obs (if live then [r0] else []) vs) /\
+  (forall r0 live vs, Forall wf_data vs ->
+     map obs_deep (reuse_history ops_data r0 live (map enc_data vs)) = value_obs (if live then [r0] else []) vs) /\
+  (forall r0 live vs, Forall wf_state vs ->
+     map obs_deep (reuse_history ops_state r0 live (map enc_state vs)) = value_obs (if live then [r0] else []) vs) /\
+  (forall pk_canon r0 live vs, Forall (wf_signed_header pk_canon) vs ->
+     map obs_deep (reuse_history (ops_signed_header pk_canon) r0 live (map enc_signed_header vs)) = value_obs (if live then [r0] else []) vs) /\
+  (forall pk_canon r0 live vs, Forall (wf_signed_data pk_canon) vs ->
+     map obs_deep (reuse_history (ops_signed_data pk_canon) r0 live (map enc_signed_data vs)) = value_obs (if live then [r0] else []) vs).
+Proof. exact reuse_roundtrip_all. Qed.
+Print Assumptions C12_reuse_roundtrip_full.
+
+(* for ARBITRARY byte strings (failed decodes and half-written receivers included) and every wire type:
+   a value obtained earlier is never changed by a later decode into the same receiver — in any run, the
+   list of kept values of a later observation extends that of an earlier one *)
+Theorem C12_earlier_values_unchanged_full : forall T (ops : reuse_ops T) r0 live steps l1 o1 l2,
+  reuse_history ops r0 live steps = l1 ++ o1 :: l2 ->
+  forall o2, In o2 l2 -> exists l, obs_kept o2 = obs_kept o1 ++ l.
+Proof. exact earlier_values_unchanged. Qed.
+Print Assumptions C12_earlier_values_unchanged_full.
+
+(* the kept values above are copies that share no struct with the receiver.  A PLAIN Go value copy
+   ([kept := *r]) is the same thing for the types without a pointer field (Header, SignedHeader, Metadata,
+   State) ... *)
+Theorem C12_plain_copies_full : forall T (into : T -> bytes -> T * bool) r0 live steps o,
+  In o (reuse_history (no_pointer into) r0 live steps) -> obs_shallow o = obs_kept o.
+Proof. exact plain_copies_no_pointer. Qed.
+Print Assumptions C12_plain_copies_full.
+
+(* ... and for Data / SignedData it differs from it in the Metadata at most: types.Data embeds *Metadata,
+   a plain copy shares that struct with the receiver, and Data.FromProto (serialization.go:264-270) writes
+   through a non-nil receiver pointer (Example plain_data_copy_sees_later_metadata: what the pinned tree
+   does; the harness compares the plain copies with the model, the Go oracle judges the struct-level copies
+   only — see checks/reg_c12.py) *)
+Theorem C12_plain_copies_of_data_full :
+  (forall r0 live steps o, In o (reuse_history ops_data r0 live steps) ->
+     map (op_strip ops_data) (obs_shallow o) = map (op_strip ops_data) (obs_kept o)) /\
+  (forall pk_canon r0 live steps o, In o (reuse_history (ops_signed_data pk_canon) r0 live steps) ->
+     map (op_strip (ops_signed_data pk_canon)) (obs_shallow o) = map (op_strip (ops_signed_data pk_canon)) (obs_kept o)).
+Proof. exact plain_copies_data. Qed.
+Print Assumptions C12_plain_copies_of_data_full.
+
 (* ---- golden vectors: the model reproduces, byte for byte, encodings recorded from the pinned tree
    (harness/c12/golden_c12.json; the Go side re-checks bytes and SHA-256 hashes on every run) ---- *)
 Definition g_header_v : wheader := {| h_version := {| v_block := 11312320731339805339%N; v_app := 126223181233767173%N |}; h_height := 7288491879053759085%N; h_time := 68%N; h_last_header := []%N; h_last_commit := [8;229;138;118;212;60;111;95]%N; h_data_hash := [0;0;0]%N; h_consensus := [34;6;243;166;127;207]%N; h_app_hash := []%N; h_last_results := [141;25;231;222;10;124]%N; h_proposer := [130;155;14;94;233;115]%N; h_validator := []%N; h_chain := [116;101;115;116;45;99;104;97;105;110]%N |}.
@@ -230,3 +330,36 @@ Proof. vm_compute. reflexivity. Qed.
 Example ex_rejects : dec_header [98;1;255] = None /\ dec_header [0;0] = None /\ dec_header [16] = None /\
                      dec_header [16;255;255;255;255;255;255;255;255;255;2] = None.
 Proof. vm_compute. repeat split; reflexivity. Qed.
+
+(* ---- receiver reuse: non-vacuity and the corners of the pinned tree ---- *)
+Definition ex_header2 : wheader :=
+  {| h_version := {| v_block := 2; v_app := 0 |}; h_height := 301; h_time := 7;
+     h_last_header := [4;5;6]; h_last_commit := [1]; h_data_hash := [254]; h_consensus := []; h_app_hash := [1];
+     h_last_results := []; h_proposer := [8;8]; h_validator := [3]; h_chain := [99; 49; 50] |}.
+Example ex_reuse_history :
+  reuse_history ops_header ex_header2 true [enc_header ex_header; [16]; enc_header ex_header2] =
+  [ (true, ex_header, [ex_header2; ex_header], [ex_header2; ex_header]);
+    (false, ex_header, [ex_header2; ex_header], [ex_header2; ex_header]);
+    (true, ex_header2, [ex_header2; ex_header; ex_header2], [ex_header2; ex_header; ex_header2]) ].
+Proof. vm_compute. reflexivity. Qed.
+Definition ex_meta (n : N) : wmetadata := {| m_chain := [99]; m_height := n; m_time := 0; m_last := [n] |}.
+Definition ex_data (n : N) : wdata := {| d_meta := Some (ex_meta n); d_txs := [[n]] |}.
+(* what the pinned tree does with a PLAIN copy of a Data: after the second decode the first plain copy shows
+   the second value's metadata (txs untouched); the struct-level copy is unchanged *)
+Example plain_data_copy_sees_later_metadata :
+  reuse_history ops_data data0 false [enc_data (ex_data 1); enc_data (ex_data 2)] =
+  [ (true, ex_data 1, [ex_data 1], [ex_data 1]);
+    (true, ex_data 2, [ex_data 1; ex_data 2], [ {| d_meta := Some (ex_meta 2); d_txs := [[1]] |}; ex_data 2 ]) ].
+Proof. vm_compute. reflexivity. Qed.
+(* a public key that does not parse: the error comes after Header and Signature were stored *)
+Example signed_header_half_written_on_key_error :
+  let r := {| sh_header := ex_header; sh_sig := [1]; sh_signer := lone_address |} in
+  into_signed_header (fun _ => None) r (f_rec 1 (enc_header ex_header2) ++ f_bytes 2 [9] ++ f_rec 3 (f_bytes 2 [1])) =
+  ({| sh_header := ex_header2; sh_sig := [9]; sh_signer := lone_address |}, false).
+Proof. vm_compute. reflexivity. Qed.
+(* bytes without a Data field: the receiver's Data stays (a fresh receiver gives the zero Data) *)
+Example signed_data_without_data_field_keeps_receiver_data :
+  let r := {| sd_data := ex_data 1; sd_sig := [1]; sd_signer := lone_address |} in
+  into_signed_data (fun k => Some k) r (f_bytes 2 [9]) = ({| sd_data := ex_data 1; sd_sig := [9]; sd_signer := signer0 |}, true) /\
+  dec_signed_data (fun k => Some k) (f_bytes 2 [9]) = Some {| sd_data := data0; sd_sig := [9]; sd_signer := signer0 |}.
+Proof. vm_compute. split; reflexivity. Qed.
